@@ -162,8 +162,125 @@ def check_commit_discipline(prog, rep, prop="C06"):
         if isinstance(n, ast.Call) and norm(n.func) == "sqlite3.connect":
             for kw in n.keywords:
                 if kw.arg in ("isolation_level", "autocommit"):
-                    rep.undecided("COMMIT-F", init.short, f"sqlite3.connect({kw.arg}=...)", "transaction mode changed from the default the argument relies on", init.loc(n))
+                    v = kw.value
+                    cv = v.value if isinstance(v, ast.Constant) else "?"
+                    auto = (kw.arg == "isolation_level" and cv is None) or (kw.arg == "autocommit" and cv is True)
+                    same = (kw.arg == "isolation_level" and isinstance(cv, str) and cv.upper() in ("", "DEFERRED", "IMMEDIATE", "EXCLUSIVE")) or (kw.arg == "autocommit" and cv is False)
+                    if auto:
+                        multi = sorted(m for m, ss in by_method.items() if len(ss) > 1 or any(in_loop(x.call) or x.many for x in ss))
+                        rep.violation("COMMIT-F", init.short, f"sqlite3.connect({kw.arg}={norm(v)})", f"the connection is opened in autocommit mode: every statement is its own transaction and self.conn.commit() has nothing to commit, so the statements of one operation are no longer applied together: a crash between the statements of {multi or 'a multi-statement operation'} leaves a split operation in the file (e.g. delete_bucket: the events gone, the bucket row still there)", init.loc(n))
+                    elif same:
+                        rep.ok("COMMIT-F", init.short, f"sqlite3.connect({kw.arg}={norm(v)})", "a transaction is opened implicitly before the first DML statement, as with the default", init.loc(n))
+                    else:
+                        rep.undecided("COMMIT-F", init.short, f"sqlite3.connect({kw.arg}=...)", "transaction mode changed from the default the argument relies on", init.loc(n))
+    mode_flag(prog, rep)
+    txn_free(prog, rep, by_method)
     return by_method
+
+
+TXN_FREE_PRAGMAS = ("wal_checkpoint", "journal_mode", "locking_mode", "auto_vacuum", "incremental_vacuum", "foreign_keys")
+
+
+def txn_free(prog, rep, by_method=None, rule="COMMIT-F"):
+    """statements SQLite refuses (or ignores) while a transaction is open run only where none can be open"""
+    cls = prog.cls("SqliteStorage")
+    if by_method is None:
+        by_method = {}
+        for s_ in sql_sites(prog):
+            if s_.stmt.is_dml and s_.fi.cls is cls:
+                by_method.setdefault(s_.fi.name, []).append(s_)
+    sites = [s for s in sql_sites(prog) if s.fi.cls is cls and (s.stmt.kind == "vacuum" or (s.stmt.kind == "pragma" and str(s.stmt.table).lower() in TXN_FREE_PRAGMAS))]
+    rep.rule("TXN-FREE", "VACUUM and the pragmas SQLite refuses or ignores inside a transaction (wal_checkpoint, journal_mode, locking_mode, auto_vacuum, foreign_keys) are executed only where no transaction can be open: in __init__ before the first write (DML statement, migration, writing method), elsewhere only after self.commit() with no write in between; the lazy store keeps its transaction open between calls")
+    for s in sites:
+        fi = s.fi
+        g = cfg_of(fi)
+        sn = g.node_of(s.call)
+        dirty, clean = set(), set()
+        for c in prog.all_calls(fi):
+            t = norm(c.func)
+            if t in ("self.commit", "self.conn.commit"):
+                clean.add(g.node_of(c))
+            elif t == "check_for_migration" or (isinstance(c.func, ast.Attribute) and isinstance(c.func.value, ast.Name) and c.func.value.id == "self" and (c.func.attr in by_method or c.func.attr == "conditional_commit")):
+                dirty.add(g.node_of(c))
+        for d in by_method.get(fi.name, []):
+            dirty.add(g.node_of(d.call))
+        starts = set(dirty)
+        if fi.name != "__init__":
+            starts.add(g.entry)
+        reach = g.reach_avoiding(list(starts), avoid=frozenset(clean), include_start=(fi.name != "__init__"))
+        open_ = sn in reach
+        what = f"{s.stmt.kind.upper()} {s.stmt.table or ''}".strip()
+        rep.check(not open_, "TXN-FREE", fi.short, what, "no transaction can be open here", f"`{s.stmt.raw[:60]}` runs where the lazy store may have a transaction open (" + ("after the migration / a write with no commit in between" if fi.name == "__init__" else "buffered writes of earlier calls are uncommitted on entry, and nothing commits before this statement") + "): SQLite refuses it ('database table is locked' / 'cannot ... from within a transaction'), the exception leaves the method, and the buffered rows (e.g. the tail of a migration) are rolled back when the object is dropped", s.loc())
+
+
+def _truth(e, env):
+    """three-valued truth of a small boolean expression under env (name -> True/False/None-object marker 'none'); None = unknown"""
+    if isinstance(e, ast.Constant):
+        return bool(e.value)
+    if isinstance(e, ast.Name):
+        v = env.get(e.id, "?")
+        return None if v == "?" else (False if v == "none" else v)
+    if isinstance(e, ast.UnaryOp) and isinstance(e.op, ast.Not):
+        t = _truth(e.operand, env)
+        return None if t is None else not t
+    if isinstance(e, ast.Call) and isinstance(e.func, ast.Name) and e.func.id == "bool" and len(e.args) == 1:
+        return _truth(e.args[0], env)
+    if isinstance(e, ast.BoolOp):
+        ts = [_truth(v, env) for v in e.values]
+        if isinstance(e.op, ast.Or):
+            if any(t is True for t in ts):
+                # value of `a or b` is the first truthy operand: truthy
+                return True if all(t is not None for t in ts[: ts.index(True)]) else None
+            return False if all(t is False for t in ts) else None
+        if any(t is False for t in ts):
+            return False if all(t is not None for t in ts[: ts.index(False)]) else None
+        return True if all(t is True for t in ts) else None
+    if isinstance(e, ast.IfExp):
+        c = _truth(e.test, env)
+        if c is None:
+            a, b = _truth(e.body, env), _truth(e.orelse, env)
+            return a if a == b else None
+        return _truth(e.body if c else e.orelse, env)
+    if isinstance(e, ast.Compare) and len(e.ops) == 1 and isinstance(e.ops[0], (ast.Is, ast.IsNot, ast.Eq, ast.NotEq)) and isinstance(e.left, ast.Name):
+        r = e.comparators[0]
+        v = env.get(e.left.id, "?")
+        if v == "?" or not isinstance(r, ast.Constant):
+            return None
+        rv = "none" if r.value is None else r.value
+        eq = v == rv if isinstance(rv, (bool, str)) or rv == "none" else None
+        if eq is None:
+            return None
+        return eq if isinstance(e.ops[0], (ast.Is, ast.Eq)) else not eq
+    return None
+
+
+def mode_flag(prog, rep, rule="COMMIT-C"):
+    """the commit mode the store runs in is the one its constructor was asked for"""
+    cls = prog.cls("SqliteStorage")
+    init = cls.methods.get("__init__")
+    if init is None or "enable_lazy_commit" not in init.params:
+        return
+    asg = [n for n in walk_own(init.node) if isinstance(n, ast.Assign) and any(norm(t) == "self.enable_lazy_commit" for t in n.targets)]
+    others = [(m, n) for m in cls.methods.values() if m is not init for n in walk_own(m.node) if isinstance(n, (ast.Assign, ast.AugAssign)) and any(norm(t) == "self.enable_lazy_commit" for t in (n.targets if isinstance(n, ast.Assign) else [n.target]))]
+    for m, n in others:
+        rep.violation(rule, m.short, "self.enable_lazy_commit re-assigned", "the commit mode is changed after construction: a store opened as auto-committing may buffer writes", m.loc(n))
+    if len(asg) != 1:
+        if asg:
+            rep.undecided(rule, init.short, "self.enable_lazy_commit", f"{len(asg)} assignments of the mode flag", init.loc(asg[0]))
+        return
+    from .trace import deep
+
+    v = deep(asg[0].value, init)
+    f = _truth(v, {"enable_lazy_commit": False})
+    t = _truth(v, {"enable_lazy_commit": True})
+    if f is False and t is True:
+        rep.ok(rule, init.short, "mode flag", f"self.enable_lazy_commit = {norm(asg[0].value)[:60]}: False stays falsy, True stays truthy", init.loc(asg[0]))
+    elif f is True:
+        rep.violation(rule, init.short, "mode flag", f"`self.enable_lazy_commit = {norm(asg[0].value)[:80]}` is truthy when the caller passes enable_lazy_commit=False: the store that was asked to commit every operation buffers them like the lazy one, and completed operations are lost when the process exits without shutdown", init.loc(asg[0]), expected="self.enable_lazy_commit = enable_lazy_commit", found=norm(asg[0].value))
+    elif t is False:
+        rep.violation(rule, init.short, "mode flag", f"`self.enable_lazy_commit = {norm(asg[0].value)[:80]}` is falsy when the caller passes enable_lazy_commit=True", init.loc(asg[0]))
+    else:
+        rep.undecided(rule, init.short, "mode flag", f"cannot decide the truth value of `{norm(asg[0].value)[:80]}` for enable_lazy_commit in (False, True)", init.loc(asg[0]))
 
 
 def _reaching(g, b):
